@@ -59,6 +59,7 @@ def build_items(tier, seed, wd):
         if tier == "quick" and ".fixed" in os.path.basename(p) and rnd0.random() > 1.0 / 3:
             continue
         add(p, ["--fix"], "default")
+        items[-1]["fresh"] = True        # C08: the report at the end of the fix run vs a fresh check of the written file
     n_style = 120 if tier == "quick" else len(paths)
     sample = corpus.stratified_sample(paths, n_style, seed)
     for p in sample:
